@@ -11,7 +11,7 @@ func init() {
 		DesignRef:   "DESIGN.md section 3, C05",
 		Runs: []run{
 			{Test: "TestC05_Seq", Quick: 1500, Thorough: 30000},
-			{Test: "TestC05_Race", Quick: 500, Thorough: 12000, Race: true},
+			{Test: "TestC05_Race", Quick: 700, Thorough: 12000, Race: true},
 			{Test: "TestC05_Links", Quick: 1500, Thorough: 30000},
 		},
 	})
